@@ -40,6 +40,14 @@ def main():
     import magicbot
     from magicbot import feedback, will_reset_to
 
+    class ScriptedBaseFault(BaseException):
+        """a fault that does not derive from Exception (like asyncio.CancelledError)"""
+
+    def fault(k):
+        if k % 3 == 0:
+            return ScriptedBaseFault("scripted fault at invocation %d" % k)
+        return RuntimeError("scripted fault at invocation %d" % k)
+
     log = []
     state = {"k": 0, "comps": [], "logging": True}
     raises = set(case["raises"])
@@ -65,7 +73,7 @@ def main():
     def cb(site):
         k = begin(["cb"] + site)
         if k in raises:
-            raise RuntimeError("scripted fault at invocation %d" % k)
+            raise fault(k)
 
     builtins._verif_cb = cb
 
@@ -74,14 +82,26 @@ def main():
     owners = case["fb_owners"]          # list: -1 = robot, else component index, grouped in collection order
 
     def make_fb(j):
-        def getter(self) -> int:
-            k = begin(["cb", "Feedback", j])
-            if k in raises:
-                raise RuntimeError("scripted fault at invocation %d" % k)
-            return fbval.get(k, 0)
+        if j % 3 == 2:
+            # no return annotation: the topic type is inferred from the value (a string here)
+            def getter(self):
+                k = begin(["cb", "Feedback", j])
+                if k in raises:
+                    raise fault(k)
+                return "s%d" % fbval.get(k, 0)
+        else:
+            def getter(self) -> int:
+                k = begin(["cb", "Feedback", j])
+                if k in raises:
+                    raise fault(k)
+                return fbval.get(k, 0)
         getter.__name__ = "get_f%03d" % j
         return feedback(getter)
 
+    class Shared:
+        pass
+    from magicbot import tunable
+    robot_holder = [None]
     comp_classes = []
     for i in range(ncomp):
         ns = {}
@@ -99,11 +119,36 @@ def main():
             def execute(self):
                 k = begin(["exec", i, snapshot()])
                 if k in raises:
-                    raise RuntimeError("scripted fault at invocation %d" % k)
+                    raise fault(k)
             return execute
         ns["execute"] = mk(i)
+        if spec.get("preassign"):
+            def mk_init(i):
+                def __init__(self):
+                    for a in range(nattr):
+                        d = case["marked"].get("%d,%d" % (i, a))
+                        if d is not None and a % 2 == 0:
+                            setattr(self, "a%d" % a, d + 77)      # the declared default must still win
+                return __init__
+            ns["__init__"] = mk_init(i)
+        ns["__annotations__"] = {"peer": Shared}
+        ns["gain"] = tunable(i)
         if spec["has_setup"]:
-            ns["setup"] = (lambda i: lambda self: cb(["Setup", i]))(i)
+            def mk_setup(i):
+                def setup(self):
+                    # every component exists, has its injected variables, reset defaults and bound tunables
+                    ok = True
+                    for j in range(ncomp):
+                        cj = getattr(robot_holder[0], "c%02d" % j, None)
+                        if cj is None or getattr(cj, "peer", None) is None or not hasattr(cj, "_tunables"):
+                            ok = False
+                            continue
+                        for a in range(nattr):
+                            if not isinstance(getattr(cj, "a%d" % a, None), int):
+                                ok = False
+                    cb(["Setup", i if ok else 1000 + i])
+                return setup
+            ns["setup"] = mk_setup(i)
         if spec["has_enable"]:
             (basens if spec["inherit"] else ns)["on_enable"] = (lambda i: lambda self: cb(["OnEnable", i]))(i)
         if spec["has_disable"]:
@@ -121,18 +166,26 @@ def main():
             tbl = "/robot" if o < 0 else "/components/c%02d" % o
             e = nt.getTable(tbl).getEntry("f%03d" % j)
             val = e.getValue()
-            vals.append(int(val.value()) if (e.exists() and val.isValid()) else None)
+            if e.exists() and val.isValid():
+                x = val.value()
+                if isinstance(x, str):
+                    x = int(x[1:]) if (x[:1] == "s" and x[1:].lstrip("-").isdigit() and j % 3 == 2) else -999999
+                elif j % 3 == 2:
+                    x = -999998          # an un-hinted string feedback must be published as a string
+                vals.append(int(x))
+            else:
+                vals.append(None)
         mode = nt.getTable("/robot").getEntry("mode")
         return (mode.getString("") if mode.exists() else None), vals
 
     def robotPeriodic(self):
         mode, vals = read_nt()
-        k = begin(["rp", mode, vals, hal.getFPGATime()[0] if isinstance(hal.getFPGATime(), tuple) else int(hal.getFPGATime())])
+        k = begin(["rp", mode, vals, hal.getFPGATime()[0] if isinstance(hal.getFPGATime(), tuple) else int(hal.getFPGATime()), snapshot()])
         if k in raises:
-            raise RuntimeError("scripted fault at invocation %d" % k)
+            raise fault(k)
 
     rns = {
-        "createObjects": lambda self: None,
+        "createObjects": lambda self: setattr(self, "peer", Shared()),
         "use_teleop_in_autonomous": bool(case["teleop_in_auto"]),
         "robotPeriodic": robotPeriodic,
         "autonomousInit": lambda self: cb(["Init", "Auto"]),
@@ -152,7 +205,7 @@ def main():
     for i in range(ncomp):
         (base_ann if i < split else ann)["c%02d" % i] = comp_classes[i]
     if split > 0:
-        Base = type("BaseRobot", (magicbot.MagicRobot,), {"__annotations__": base_ann, "createObjects": lambda self: None})
+        Base = type("BaseRobot", (magicbot.MagicRobot,), {"__annotations__": base_ann, "createObjects": lambda self: setattr(self, "peer", Shared())})
         rns["__annotations__"] = ann
         Robot = type("Robot", (Base,), rns)
     else:
@@ -176,6 +229,7 @@ def main():
     set_word(first)
     wpilib.DriverStation.refreshData()
     robot = Robot()
+    robot_holder[0] = robot
     exc = []
     started = [False]
     sem = threading.Semaphore(0)
@@ -263,6 +317,13 @@ def main():
             ended = True
             marks.append(len(log))
             break
+        if t[0] == "fms":
+            # the FMS gets attached / detached while the loop sleeps: the control word the robot
+            # refreshes when it next wakes carries the new flag.  No time passes, nothing runs.
+            DS.setFmsAttached(bool(t[1]))
+            DS.notifyNewData()
+            marks.append(len(log))
+            continue
         set_word(t)
         wsim.stepTimingAsync(P)
         if not wait_idle():
